@@ -7,7 +7,7 @@ PROP = 'C09'
 def run(tier, seed):
     return netcheck.run_net(PROP, tier, seed,
         profiles=[('lra', 120, 1500, 45), ('mix', 30, 300, 40)],
-        rule='seeded systems of linear relations (1-3 variables per side, coefficients in {1,-1,2,-2,1/2,-3/2}, strict and '
+        rule='(0) the transitions of the implementation-shaped model LraImpl (spec/LraGen.tla: one test per transition between abstract states) replayed on the real lra_theory: bounds, literal values, decision level and recorded lemmas compared with the model after every call; executions that deviate or end in a conflict are decided by NetworkTrace (values are a model, bounds exclude no solution, lemmas and no-goods entailed); (1) seeded systems of linear relations (1-3 variables per side, coefficients in {1,-1,2,-2,1/2,-3/2}, strict and '
              'non-strict, shared sub-expressions, derived variables) asserted, negated and retracted through assume/pop/next '
              'histories; after every successful propagation the reported values satisfy every asserted relation (strict ones '
              'through infinitesimals), lie within the reported bounds, the bounds exclude no real solution (Fourier-Motzkin), '
@@ -16,7 +16,10 @@ def run(tier, seed):
         assumptions=['at most 6 theory atoms and 5 arithmetic variables per execution (Fourier-Motzkin in TLC)',
                      'numbers beyond 20000 in magnitude make an execution "wide": it is dropped and counted'],
         models=[('MC_LraSem', 'MC_LraSem_quick.cfg', 'MC_LraSem.cfg',
-                 'the Fourier-Motzkin oracle agrees with vertex enumeration on every system of <= 2 (quick) / 3 (thorough) constraints over 2 variables', None)])
+                 'the Fourier-Motzkin oracle agrees with vertex enumeration on every system of <= 2 (quick) / 3 (thorough) constraints over 2 variables', None),
+                ('MC_LraImpl', 'MC_LraImpl_A1.cfg', 'MC_LraImpl_A.cfg',
+                 'implementation-shaped model of lra_theory (tableau, values, bounds with reasons, undo layers, unate and row bound propagation with lemmas, Bland pivoting, conflict explanations): RowsEquivalent, ValuesSatisfyRows, ValuesWithinBounds, NoCycling, BoundsExact, ReasonsValid, PopRestores, LemmasValid / ConflictValid (by Fourier-Motzkin), AssertedFeasible; explored per state without the lemma database', None)],
+        lraimpl=(['LraGen_A.cfg'], ['LraGen_A.cfg', 'LraGen_B.cfg']))
 
 
 def replay(path):
